@@ -97,7 +97,7 @@ fn main() {
     // its own, which every trace specification reports as a deviation (unknown operation) with the panic message
     let run = std::panic::catch_unwind(std::panic::AssertUnwindSafe(|| {
     match suite.as_str() {
-        "sm3" => suites::sm3::drive(&mut t, &tier, seed),
+        "sm3" => suites::sm3::drive(&mut t, &tier, seed, plan),
         "zuc" => suites::zuc::drive_stream(&mut t, &tier, seed, plan),
         "eea" => suites::zuc::drive_eea(&mut t, &tier, seed),
         "sm2sig" => suites::sm2::drive_sign(&mut t, &tier, seed, plan),
